@@ -4,7 +4,7 @@ CONSTANTS
   MaxW = 1
   MaxWc = 5
   MaxDepth = 1
-  Tights = {FALSE, TRUE}
+  Tights = {FALSE}
   EmitOpen = FALSE
 INVARIANT WellNested
 INVARIANT Emit
